@@ -147,7 +147,10 @@ def inline_defs(func_node: ast.AST, expr: ast.expr, depth: int = 6) -> ast.expr:
     """Copy of expr in which every local of the function that is BOUND exactly once, by a plain `x = <expr>`, is replaced by
     that expression, recursively.  Like core.inline_locals, but only binding occurrences count as definitions (a name read in
     the subscript of an assignment target, `t[key] = v`, is not a definition of `key`); parameters, loop targets, with / except
-    / import names, augmented and unpacking assignments, walrus targets, global / nonlocal names are never replaced."""
+    / import names, unpacking assignments, walrus targets, global / nonlocal names are never replaced.  A local bound by one
+    plain `x = a` and then only modified by `x op= b` statements of the same statement list is, where it is read after the last
+    of them (in that list, or inside a later statement of it), the operation `(a op b)...`: such a read is replaced when the
+    expression handed over is a node of the function itself (the place of a read is only known there)."""
     from .core import walk_no_nested
 
     a = func_node.args
@@ -171,16 +174,60 @@ def inline_defs(func_node: ast.AST, expr: ast.expr, depth: int = 6) -> ast.expr:
     # a plain definition is recorded twice (its value, then None for its Store name): single = one value and one None
     single = {k: v[0] if v[0] is not None else v[1] for k, v in defs.items() if len(v) == 2 and (v[0] is None) != (v[1] is None) and k not in never}
 
-    class Sub(ast.NodeTransformer):
-        def __init__(self, d):
-            self.d = d
+    # x = a ; x op= b ; ... in one statement list: name -> (the list, index of the last `op=`, the folded operation)
+    folded: dict[str, tuple[list, int, ast.expr]] = {}
+    augs: dict[str, list[ast.AugAssign]] = {}
+    for n in walk_no_nested(func_node):
+        if isinstance(n, ast.AugAssign) and isinstance(n.target, ast.Name):
+            augs.setdefault(n.target.id, []).append(n)
+    parent: dict[int, ast.AST] = {}
+    if augs:
+        parent = {id(c): p_ for p_ in ast.walk(func_node) for c in ast.iter_child_nodes(p_)}
+        for name, aa in augs.items():
+            v = defs.get(name, [])
+            values = [x for x in v if x is not None]
+            # one plain definition (value + its Store name) and one Store name per `op=`: nothing else binds the name
+            if name in never or len(values) != 1 or len(v) != 2 + len(aa):
+                continue
+            first = next((x for x in walk_no_nested(func_node) if isinstance(x, (ast.Assign, ast.AnnAssign)) and x.value is values[0]), None)
+            par = parent.get(id(first))
+            blk = next((b for b in (getattr(par, f, None) for f in ('body', 'orelse', 'finalbody')) if isinstance(b, list) and any(x is first for x in b)), None)
+            if blk is None or any(not any(x is a for x in blk) for a in aa):
+                continue
+            pos = {id(x): k for k, x in enumerate(blk)}
+            if any(pos[id(a)] < pos[id(first)] for a in aa):
+                continue
+            e = values[0]
+            for a in sorted(aa, key=lambda a: pos[id(a)]):
+                e = ast.copy_location(ast.BinOp(left=e, op=a.op, right=a.value), a)
+            folded[name] = (blk, max(pos[id(a)] for a in aa), e)
 
-        def visit_Name(self, node):
-            if isinstance(node.ctx, ast.Load) and node.id in single and self.d > 0:
-                return Sub(self.d - 1).visit(copy.deepcopy(single[node.id]))
-            return node
+    def read_after(node: ast.Name) -> bool:
+        """node (a node of the function) is read after the last `op=` of its name, in the statement list of its definition"""
+        blk, last, _ = folded[node.id]
+        cur = node
+        while cur is not None:
+            for k, x in enumerate(blk):
+                if x is cur:
+                    return k > last
+            cur = parent.get(id(cur))
+        return False
 
-    return ast.fix_missing_locations(Sub(depth).visit(copy.deepcopy(expr)))
+    def build(n, d: int):
+        """copy of n with the replacements made (n itself is left as it is: its nodes keep their place in the function)"""
+        if isinstance(n, ast.Name) and isinstance(n.ctx, ast.Load) and d > 0:
+            if n.id in single:
+                return build(single[n.id], d - 1)
+            if n.id in folded and read_after(n):
+                return build(folded[n.id][2], d - 1)
+        if isinstance(n, ast.AST):
+            new = n.__class__(**{f: build(getattr(n, f), d) for f in n._fields if hasattr(n, f)})
+            return ast.copy_location(new, n) if hasattr(n, 'lineno') else new
+        if isinstance(n, list):
+            return [build(x, d) for x in n]
+        return n
+
+    return ast.fix_missing_locations(build(expr, depth))
 
 
 def inline_returns(prog, f, expr: ast.expr, depth: int = 3) -> ast.expr:
